@@ -1120,3 +1120,199 @@ Proof.
   - vm_compute. left; reflexivity.
   - vm_compute; reflexivity.
 Qed.
+
+(** ** refinement: the model computes the reference coercion *)
+Definition agrees {A} (r : res A) (o : option A) : Prop :=
+  match r with Ok g => o = Some g | Err => o = None | Panic => True end.
+
+Lemma agrees_of_option {A} (o : option A) : agrees (of_option o) o.
+Proof. destruct o; reflexivity. Qed.
+
+Lemma res_map_opt_map {A B} (f : A -> res gval) (f' : B -> option gval) (g : A -> B) l :
+  Forall (fun x => agrees (f x) (f' (g x))) l -> agrees (res_map f l) (opt_map f' (map g l)).
+Proof.
+  induction 1 as [|x r Hx _ IH]; simpl; [reflexivity|].
+  destruct (f x); simpl in Hx; [|rewrite Hx; reflexivity|exact I].
+  rewrite Hx. destruct (res_map f r); simpl in IH; [|rewrite IH; reflexivity|exact I].
+  rewrite IH. reflexivity.
+Qed.
+
+Lemma agrees_res_list r o : agrees r o -> agrees (res_list r) (option_map GList o).
+Proof. destruct r; simpl; intro H; subst; auto. Qed.
+
+Lemma agrees_hook h m : agrees (apply_hook h m) (ref_hook h m).
+Proof. destruct h; reflexivity. Qed.
+
+From ApiFu Require Import Val.FloatFacts.
+
+Section Refinement.
+  Variable fx : fixes.
+  Variable E : env.
+  Variable dt : bytes -> option bytes.
+  Hypothesis Hbool : fix_bool_num fx = true.
+  Hypothesis Hnn : fix_nn_flag fx = true.
+
+  Lemma rc_eq tr v t w : ref_coerce E dt tr v t w =
+    match v with
+    | INull => if is_nonnull t then None else Some GNil
+    | IVarVal g => if is_nil g then (if is_nonnull t then None else Some GNil) else Some g
+    | IVarAbsent => None
+    | IInvalid => None
+    | _ =>
+        match t with
+        | StNonNull t' => ref_coerce E dt tr v t' w
+        | StList t' =>
+            match v with
+            | IList items => option_map GList (opt_map (fun x => ref_coerce E dt tr x t' false) items)
+            | _ => if w then option_map (fun c => GList [c]) (ref_coerce E dt tr v t' true) else None
+            end
+        | StNamed n =>
+            match aget n E with
+            | Some (TScalar k) => ref_scalar dt tr k v
+            | Some (TEnum vals) =>
+                match tr, v with
+                | TLiteral, IEnum x => aget x vals
+                | TJson, IString x => aget x vals
+                | _, _ => None
+                end
+            | Some (TInput fields h) =>
+                match v with
+                | IObject kvs =>
+                    if dup_names (map fst kvs) || negb (forallb (fun p => ahas (fst p) fields) kvs) then None
+                    else match fold_left (ref_field_step (map (fun p => match p with (k, x) => (k, (is_absent x, ref_coerce E dt tr x)) end) kvs))
+                                         fields (Some []) with
+                         | Some m => ref_hook h m
+                         | None => None
+                         end
+                | _ => None
+                end
+            | None => None
+            end
+        end
+    end.
+  Proof. destruct v; destruct t; reflexivity. Qed.
+
+  Lemma scalar_variable_ref k j : jval_ok j = true ->
+    scalar_variable fx dt k j = ref_scalar dt TJson k (abs_json j).
+  Proof.
+    intro W. destruct k; destruct j; cbn [scalar_variable is_jbool abs_json ref_scalar as_integer coerce_int coerce_float coerce_long_int];
+      rewrite ?Hbool; cbn [andb]; try reflexivity.
+    - (* Float from a Go int *)
+      simpl in W. apply andb_true_iff in W as [W1 W2]. apply Z.leb_le in W1. apply Z.leb_le in W2.
+      rewrite f64_of_Z_spec by lia. reflexivity.
+    - (* ID from a Go int *)
+      cbn [jval_ok] in W. unfold within. rewrite W. reflexivity.
+  Qed.
+
+  Definition var_refines (j : jval) : Prop :=
+    forall t a, agrees (coerce_var_value fx E dt j t a) (ref_coerce E dt TJson (abs_json j) t a).
+
+  Lemma is_absent_abs_json j : is_absent (abs_json j) = false.
+  Proof. destruct j; reflexivity. Qed.
+
+  Lemma subs_agree (kvs : list (name * jval)) fname :
+    match aget fname (map (fun p => match p with (k, jv) => (k, coerce_var_value fx E dt jv) end) kvs) with
+    | Some co => exists jv, In (fname, jv) kvs /\ co = coerce_var_value fx E dt jv /\
+                            aget fname (map (fun p => match p with (k, x) => (k, (is_absent x, ref_coerce E dt TJson x)) end)
+                                            (map (fun p => match p with (k, v) => (k, abs_json v) end) kvs))
+                            = Some (false, ref_coerce E dt TJson (abs_json jv))
+    | None => aget fname (map (fun p => match p with (k, x) => (k, (is_absent x, ref_coerce E dt TJson x)) end)
+                              (map (fun p => match p with (k, v) => (k, abs_json v) end) kvs)) = None
+    end.
+  Proof.
+    induction kvs as [|[k jv] r IH]; simpl; auto.
+    destruct (bytes_eqb fname k) eqn:B.
+    - apply bytes_eqb_eq in B; subst. exists jv. rewrite is_absent_abs_json. auto.
+    - destruct (aget fname (map _ r)) as [co|]; auto.
+      destruct IH as (jv' & Hin & Hco & Hg). exists jv'. auto.
+  Qed.
+
+  Definition acc_agrees (a : res (list (name * gval))) (b : option (list (name * gval))) : Prop := agrees a b.
+
+  Lemma var_fold_agrees (kvs : list (name * jval)) fields :
+    Forall (fun p => var_refines (snd p)) kvs ->
+    forall acc acc', acc_agrees acc acc' ->
+    acc_agrees (fold_left (var_field_step (map (fun p => match p with (k, jv) => (k, coerce_var_value fx E dt jv) end) kvs)) fields acc)
+               (fold_left (ref_field_step (map (fun p => match p with (k, x) => (k, (is_absent x, ref_coerce E dt TJson x)) end)
+                                               (map (fun p => match p with (k, v) => (k, abs_json v) end) kvs))) fields acc').
+  Proof.
+    intros HF. induction fields as [|[fname fd] r IH]; intros acc acc' Ha; simpl; auto.
+    apply IH. destruct acc as [m| |]; simpl in Ha; subst; simpl; auto.
+    pose proof (subs_agree kvs fname) as S.
+    destruct (aget fname (map _ kvs)) as [co|].
+    - destruct S as (jv & Hin & -> & ->). rewrite Forall_forall in HF. specialize (HF _ Hin (in_type fd) true). simpl in HF.
+      destruct (coerce_var_value fx E dt jv (in_type fd) true); simpl in HF; rewrite ?HF; simpl; auto.
+    - rewrite S. destruct (in_default fd) as [d0|]; [rewrite default_value_ref; reflexivity|].
+      destruct (is_nonnull (in_type fd)); reflexivity.
+  Qed.
+
+  Lemma map_fst_abs (kvs : list (name * jval)) :
+    map fst (map (fun p => match p with (k, v) => (k, abs_json v) end) kvs) = map fst kvs.
+  Proof. induction kvs as [|[k v] r IH]; simpl; congruence. Qed.
+
+  Lemma forallb_known_abs (kvs : list (name * jval)) (fields : list (name * in_def)) :
+    forallb (fun p => ahas (fst p) fields) (map (fun p => match p with (k, v) => (k, abs_json v) end) kvs)
+    = forallb (fun p => ahas (fst p) fields) kvs.
+  Proof. induction kvs as [|[k v] r IH]; simpl; congruence. Qed.
+
+  Ltac rnn_case IHt := rewrite Hnn; apply IHt.
+
+  Ltac rwrap_case j t' IHt a :=
+    destruct a; [|reflexivity];
+    specialize (IHt true);
+    unfold agrees in IHt |- *;
+    destruct (coerce_var_value fx E dt j t' true); cbn beta iota in IHt |- *; [rewrite IHt; reflexivity|rewrite IHt; reflexivity|exact I].
+
+  Ltac ratom_case j W :=
+    let t := fresh "t" in let n := fresh "n" in let t' := fresh "t'" in let IHt := fresh "IHt" in
+    let a := fresh "a" in
+    intros t; induction t as [n|t' IHt|t' IHt]; intros a; rewrite cvv_eq, rc_eq; cbn [abs_json] in *;
+    [ destruct (aget n E) as [[k|vals|fields h]|];
+      [ rewrite (scalar_variable_ref k j W); apply agrees_of_option
+      | cbn [enum_variable]; try reflexivity
+      | reflexivity
+      | exact I ]
+    | rwrap_case j t' IHt a
+    | rnn_case IHt ].
+
+  Theorem var_value_refines : forall j, jval_ok j = true -> var_refines j.
+  Proof.
+    induction j as [|b|d|z|s|l IHl|kvs IHk|] using jval_ind'; intros W.
+    - intros t a. rewrite cvv_eq, rc_eq. cbn [abs_json] in *. destruct (is_nonnull t); reflexivity.
+    - ratom_case (JBool b) W.
+    - ratom_case (JNum d) W.
+    - ratom_case (JInt z) W.
+    - ratom_case (JStr s) W. apply agrees_of_option.
+    - (* lists *)
+      pose proof W as W0. cbn [jval_ok] in W. rewrite forallb_forall in W.
+      intros t; induction t as [n|t' IHt|t' IHt]; intros a; rewrite cvv_eq, rc_eq; cbn [abs_json] in *.
+      + destruct (aget n E) as [[k|vals|fields h]|]; try reflexivity; try exact I.
+        rewrite (scalar_variable_ref k (JList l) W0). apply agrees_of_option.
+      + apply agrees_res_list. apply res_map_opt_map.
+        rewrite Forall_forall in *. intros x Hx. apply (IHl x Hx (W x Hx)).
+      + rnn_case IHt.
+    - (* objects *)
+      pose proof W as W0. cbn [jval_ok] in W. apply andb_true_iff in W as [Wd W]. rewrite forallb_forall in W.
+      intros t; induction t as [n|t' IHt|t' IHt]; intros a; rewrite cvv_eq, rc_eq; cbn [abs_json] in *.
+      + destruct (aget n E) as [[k|vals|fields h]|]; try reflexivity; try exact I.
+        * rewrite (scalar_variable_ref k (JObj kvs) W0). apply agrees_of_option.
+        * rewrite map_fst_abs, forallb_known_abs. apply negb_true_iff in Wd. rewrite Wd. cbn [orb].
+          assert (HF : Forall (fun p => var_refines (snd p)) kvs).
+          { rewrite Forall_forall in *. intros p Hp. apply (IHk p Hp (W p Hp)). }
+          pose proof (var_fold_agrees kvs fields HF (Ok []) (Some []) eq_refl) as FA.
+          destruct (fold_left (var_field_step _) fields (Ok [])) as [result| |]; unfold acc_agrees in FA; simpl in FA.
+          -- destruct (forallb (fun p => ahas (fst p) fields) kvs); [|reflexivity].
+             cbn [negb]. rewrite FA. apply agrees_hook.
+          -- destruct (negb (forallb (fun p => ahas (fst p) fields) kvs)); [reflexivity|]. rewrite FA. reflexivity.
+          -- exact I.
+      + rwrap_case (JObj kvs) t' IHt a.
+      + rnn_case IHt.
+    - (* a foreign Go value: rejected everywhere *)
+      intros t; induction t as [n|t' IHt|t' IHt]; intros a; rewrite cvv_eq, rc_eq; cbn [abs_json] in *.
+      + destruct (aget n E) as [[k|vals|fields h]|]; try reflexivity; try exact I.
+        destruct k; cbn [scalar_variable is_jbool coerce_int coerce_float coerce_long_int]; rewrite ?Hbool; reflexivity.
+      + destruct a; [|reflexivity]. specialize (IHt true). rewrite rc_eq in IHt. unfold agrees in *.
+        destruct (coerce_var_value fx E dt JOther t' true); cbn beta iota in *; auto. discriminate.
+      + rewrite Hnn. specialize (IHt a). rewrite rc_eq in IHt. exact IHt.
+  Qed.
+End Refinement.
